@@ -10,11 +10,13 @@ import (
 type fPayload struct {
 	a string
 	b int
+	// X is nil, except in native replays of runs in which the solver let the JSON encoder fail
+	X interface{} `json:"x,omitempty"`
 }
 
 // symEvent: an event with symbolic type/time and a format table that is nil or holds up to 2 symbolic entries
 func symEvent() (*Event, *fPayload, [2]string, [2]string, int) {
-	p := &fPayload{a: nondetString(), b: nondetInt()}
+	p := &fPayload{a: nondetString(), b: nondetInt(), X: verifMaybeUnencodable()}
 	e := &Event{Type: EventType(nondetString()), CreatedAt: time.Unix(0, int64(nondetInt())), Payload: p}
 	var ks, vs [2]string
 	n := 0
